@@ -68,6 +68,26 @@ T.update({
  "C20-4": (["C20"], "", "a hex literal as the last token of an initialiser"),
 })
 
+
+T.update({
+ "C04-3": (["C04"], "", "a module with two functions, the second containing a row-wise matrix operation"),
+ "C04-4": (["C04"], "first missed; caught after element writes THROUGH a swizzle (v.zw[1] = e) were generated", "an index write whose parent is a swizzle of two or more letters: p.zw[1] = 9"),
+ "C06-3": (["C06"], "", "an argument is read, then written, and the earlier value is used afterwards: return a++;"),
+ "C06-4": (["C06"], "first missed; caught after non-exported functions of the same signature were placed before and after the exported one", "a function without `export` declared before an exported one"),
+ "C07-3": (["C07"], "", "two overloads of a non-exported function, or an exported f plus a non-exported overload of f"),
+ "C07-4": (["C07"], "", "a non-void function with two `return e;` statements"),
+ "C08-3": (["C08"], "first missed; caught after chains with LITERAL operands (floats with exponents, negative ints) were added to the tree leg", "two equal + or * in a row whose trailing operands are both float literals: x + 1e20 + 1.0"),
+ "C08-4": (["C08"], "first missed; caught by the same literal-operand chains (a negative literal is one token)", "a negative integer literal directly before %: a + -7 % 3"),
+ "C16-3": (["C16"], "", "an overload set split between a module and the module it imports"),
+ "C16-4": (["C16"], "first missed; caught after module names that differ only in a trailing letter of '.nslir' were used (util/utils, n, s, l, i, r)", "two imported modules whose names collapse under rstrip('.nslir'): util and utils"),
+ "C17-3": (["C17"], "first missed; caught after programs with uint were stored and reloaded (every corpus entry is now round-tripped)", "the stored program contains a uint type"),
+ "C17-4": (["C17"], "first missed; caught after a store / load / store-again / load-again history through one loader object (and through default Linkers for an import) was added", "a module file stored again with another program and loaded again through the same loader object"),
+ "C18-3": (["C18"], "", "an earlier compilation in the same process lowered a same-named struct with a different field list"),
+ "C18-4": (["C18"], "", "wasm bytes of a function with int and float registers compared across hash seeds"),
+ "C19-3": (["C19"], "", "a module with two functions, a body shorter than the longest body before it"),
+ "C19-4": (["C19"], "", "a number first written unsigned and later as an i32.const immediate in the same process"),
+})
+
 for sid, (caught, note, needs) in sorted(T.items()):
     d = os.path.join(ROOT, sid)
     notes = open(os.path.join(d, "notes.md")).read()
